@@ -416,6 +416,23 @@ func (w *World) computeFlow(k flowKey) *FlowResult {
 		if c.dead[b] || in[b.Index] == nil {
 			continue
 		}
+		// a block that only merges values and returns (`return err` after a switch whose arms assign err):
+		// one return state per incoming edge, so that an arm that wrote the destination completely is not
+		// mixed with an arm that did not touch it
+		if rt, ok := pureMergeReturn(b); ok && len(b.Preds) > 1 {
+			for pi, p := range b.Preds {
+				if c.dead[p] || outs[p.Index] == nil {
+					continue
+				}
+				for si, sc := range p.Succs {
+					if sc != b || c.edgeDead(p, si) || si >= len(outs[p.Index]) || outs[p.Index][si] == nil {
+						continue
+					}
+					c.recordReturnVia(rt, outs[p.Index][si].clone(), pi)
+				}
+			}
+			continue
+		}
 		c.transfer(b, in[b.Index].clone(), true)
 	}
 	c.summarise()
@@ -869,6 +886,67 @@ func (c *flowCtx) translateTag(tag string, args []ssa.Value) string {
 	return tag
 }
 
+// pureMergeReturn: b consists of φs (and debug refs) followed by a return.
+func pureMergeReturn(b *ssa.BasicBlock) (*ssa.Return, bool) {
+	for _, in := range b.Instrs {
+		switch x := in.(type) {
+		case *ssa.Phi, *ssa.DebugRef:
+		case *ssa.Return:
+			return x, true
+		default:
+			return nil, false
+		}
+	}
+	return nil, false
+}
+
+// recordReturnVia records the return state for the edge from predecessor #pi
+// of the return's (pure merge) block: φ results are resolved along that edge.
+func (c *flowCtx) recordReturnVia(r *ssa.Return, s *fstate, pi int) {
+	resolve := func(v ssa.Value) ssa.Value {
+		if phi, ok := v.(*ssa.Phi); ok && phi.Block() == r.Block() && pi < len(phi.Edges) {
+			return phi.Edges[pi]
+		}
+		return v
+	}
+	rs := ReturnState{In: r, Must: map[string]bool{}, May: fieldTags{}, Bool0: -1}
+	for k, v := range s.must {
+		if v {
+			rs.Must[k] = true
+		}
+	}
+	for f, tags := range s.may {
+		rs.May[f] = map[string]ssa.Instruction{}
+		for t, in := range tags {
+			rs.May[f][t] = in
+		}
+	}
+	pred := r.Block().Preds[pi]
+	for _, v := range r.Results {
+		rv := resolve(v)
+		if types.Identical(rv.Type(), types.Universe.Lookup("error").Type()) && c.w.definitelyNonNil(rv, pred) {
+			rs.IsError = true
+		}
+		if typeIs(rv.Type(), apdPath, "Condition") {
+			if k, ok := rv.(*ssa.Const); ok && k.Value != nil {
+				if n, ok := constant.Uint64Val(k.Value); ok && n&3 != 0 {
+					rs.IsError = true
+				}
+			}
+		}
+	}
+	if len(r.Results) > 0 {
+		if k, ok := resolve(r.Results[0]).(*ssa.Const); ok && k.Value != nil && k.Value.Kind() == constant.Bool {
+			if constant.BoolVal(k.Value) {
+				rs.Bool0 = 1
+			} else {
+				rs.Bool0 = 0
+			}
+		}
+	}
+	c.res.Returns = append(c.res.Returns, rs)
+}
+
 func (c *flowCtx) recordReturn(r *ssa.Return, s *fstate) {
 	rs := ReturnState{In: r, Must: map[string]bool{}, May: fieldTags{}, Bool0: -1}
 	for k, v := range s.must {
@@ -941,6 +1019,22 @@ func (w *World) definitelyNonNil(v ssa.Value, b *ssa.BasicBlock) bool {
 			n := f.String()
 			if n == "errors.New" || n == "fmt.Errorf" {
 				return true
+			}
+			// a helper of the package that only ever builds an error (errNotConverged(z) error)
+			if w.inPkg(f) && f.Signature.Results().Len() == 1 && len(f.Blocks) > 0 && w.nonNilDepth < 3 {
+				w.nonNilDepth++
+				all := true
+				for _, hb := range f.Blocks {
+					if rt, isRet := hb.Instrs[len(hb.Instrs)-1].(*ssa.Return); isRet {
+						if !w.definitelyNonNil(rt.Results[0], hb) {
+							all = false
+						}
+					}
+				}
+				w.nonNilDepth--
+				if all {
+					return true
+				}
 			}
 		}
 	case *ssa.MakeInterface:
@@ -1117,6 +1211,9 @@ func (w *World) underSystemTest(b *ssa.BasicBlock, depth int) bool {
 		last := p.Instrs[len(p.Instrs)-1]
 		switch t := last.(type) {
 		case *ssa.If:
+			if w.systemMaskTestEdge(t.Cond, p.Succs[0] == b) {
+				continue
+			}
 			c, ok := t.Cond.(*ssa.Call)
 			if !ok || p.Succs[0] != b {
 				return false
@@ -1134,4 +1231,33 @@ func (w *World) underSystemTest(b *ssa.BasicBlock, depth int) bool {
 		}
 	}
 	return true
+}
+
+// systemMaskTestEdge: cond is x&K != 0 (taken on its true edge) or x&K == 0 (on its false edge) with K a
+// non-empty subset of SystemOverflow|SystemUnderflow: the edge is entered only with a System* flag set.
+func (w *World) systemMaskTestEdge(cond ssa.Value, trueEdge bool) bool {
+	bo, ok := cond.(*ssa.BinOp)
+	if !ok || (bo.Op != token.NEQ && bo.Op != token.EQL) {
+		return false
+	}
+	if (bo.Op == token.NEQ) != trueEdge {
+		return false
+	}
+	cc := w.conditionConsts()
+	sys := cc["SystemOverflow"] | cc["SystemUnderflow"]
+	for _, pair := range [][2]ssa.Value{{bo.X, bo.Y}, {bo.Y, bo.X}} {
+		and, ok := pair[0].(*ssa.BinOp)
+		zero, ok2 := pair[1].(*ssa.Const)
+		if !ok || !ok2 || and.Op != token.AND || zero.Value == nil || ci(zero) != 0 {
+			continue
+		}
+		for _, q := range []ssa.Value{and.X, and.Y} {
+			if k, ok := q.(*ssa.Const); ok && k.Value != nil && typeIs(k.Type(), apdPath, "Condition") {
+				if bits := uint64(ci(k)); bits != 0 && bits&^sys == 0 {
+					return true
+				}
+			}
+		}
+	}
+	return false
 }
